@@ -148,9 +148,11 @@ def r10_2(ctx):
                'blocking acquire()' if blocking else 'result of the acquire decides' if tested else
                '`%s` may return without a slot and nobody looks at the answer: the job is registered and queued '
                'anyway and later gives back a slot it never held' % ast.unparse(ac))
-    defs = [v for (dn, t, v) in q.assigns(fi, 'waitforslot')]
-    ok = any(isinstance(v, ast.IfExp) and ast.unparse(v).replace(' ', '') == 'self.putlocksifwaitforslotisNoneelsewaitforslot'
-             for v in defs)
+    # read on the normal form `if waitforslot is None: waitforslot = self.putlocks` (sa/normalize.py default_idiom)
+    defs = [(dn, v) for (dn, t, v) in q.assigns(fi, 'waitforslot')]
+    ok = bool(defs) and all(ast.unparse(v) == 'self.putlocks' and q.has_guard(fi, dn, 'waitforslot is None', True)
+                            for (dn, v) in defs) and \
+        all(fi.cfg.nodes[b] in [dn for (dn, v) in defs] for (a, b, l) in q.outcome_edges(fi, 'waitforslot is None', True))
     ctx.ob('R10.2', 'apply_async:putlocks-is-the-default', ok, fi, None, 'waitforslot defaults to self.putlocks')
 
 
